@@ -102,6 +102,8 @@ func main() {
 		fmt.Println(string(b))
 	case "scn":
 		cmdScn(os.Args[2:])
+	case "probe":
+		cmdProbe(os.Args[2])
 	case "replay":
 		// replay <property> <file>: re-run the stored witnesses on the real code and print what happens
 		raw, err := os.ReadFile(os.Args[3])
